@@ -24,7 +24,7 @@ ACTIONS = ["MCTouch", "MCSetValue", "MCSetString", "MCSetNumber", "MCSetBool", "
 # numbers: the shortest round-trip decimal of a double, by CPython (independent of the code under test and of std)
 # ---------------------------------------------------------------------------------------------------------------
 DEC_RE = re.compile(r"^[+-]?([0-9]+\.?[0-9]*|\.[0-9]+)([eE][+-]?[0-9]+)?$")
-ZERO_N = {"cls": "none", "neg": False, "digs": [], "e": 0}
+ZERO_N = {"cls": "none", "neg": False, "digs": [], "e": 0, "bits": ""}
 
 
 def bits_of(x):
@@ -32,14 +32,15 @@ def bits_of(x):
 
 
 def dec_of_float(x):
-    """{cls, neg, digs (list of characters, no leading/trailing zeros), e}: x = (-1)^neg * d.igs * 10^e"""
+    """{cls, neg, digs (list of characters, no leading/trailing zeros), e, bits}: x = (-1)^neg * d.igs * 10^e; digs is
+    A shortest round-trip decimal (not unique at 17 digits: the bits are what identifies the double)"""
     neg = struct.pack(">d", x)[0] & 0x80 != 0
     if x != x:
-        return {"cls": "nan", "neg": neg, "digs": [], "e": 0}
+        return {"cls": "nan", "neg": neg, "digs": [], "e": 0, "bits": bits_of(x)}
     if x in (float("inf"), float("-inf")):
-        return {"cls": "inf", "neg": neg, "digs": [], "e": 0}
+        return {"cls": "inf", "neg": neg, "digs": [], "e": 0, "bits": bits_of(x)}
     if x == 0:
-        return {"cls": "fin", "neg": neg, "digs": [], "e": 0}
+        return {"cls": "fin", "neg": neg, "digs": [], "e": 0, "bits": bits_of(x)}
     sign, digits, exp = Decimal(repr(abs(x))).as_tuple()
     digits = list(digits)
     while digits and digits[-1] == 0:
@@ -47,7 +48,7 @@ def dec_of_float(x):
         exp += 1
     while digits and digits[0] == 0:
         digits.pop(0)
-    return {"cls": "fin", "neg": neg, "digs": [str(d) for d in digits], "e": len(digits) - 1 + exp}
+    return {"cls": "fin", "neg": neg, "digs": [str(d) for d in digits], "e": len(digits) - 1 + exp, "bits": bits_of(x)}
 
 
 def float_of_dec(n):
